@@ -47,7 +47,7 @@ def _py(f, *a, **kw):
     return ('ok', r)
 
 
-def check(rep, drv, seed, n=400, which=('encodeTag', 'encodeLength', 'toBytes', 'oidEncode', 'oidDecode')):
+def check(rep, drv, seed, n=400, which=('encodeTag', 'encodeLength', 'toBytes', 'oidEncode', 'oidDecode', 'timeCanon')):
     """returns number of cases compared"""
     from pyasn1.codec.ber import encoder as benc, decoder as bdec
     from pyasn1.compat import integer
@@ -165,6 +165,47 @@ def check(rep, drv, seed, n=400, which=('encodeTag', 'encodeLength', 'toBytes', 
             if not chunk:
                 continue
             cmp_('oidDecode', 'KOIDDEC ' + ' '.join(str(a) for a in chunk), impl)
+    if 'timeCanon' in which:
+        from pyasn1.codec.cer import encoder as cenc
+        from pyasn1.type import useful
+
+        class Capture(Exception):
+            pass
+        for _ in range(n):
+            isgt = rng.random() < 0.6
+            cls, ecls = (useful.GeneralizedTime, cenc.GeneralizedTimeEncoder) if isgt else (useful.UTCTime, cenc.UTCTimeEncoder)
+            body = ''.join(rng.choice('0123456789') for _ in range(rng.choice([8, 10, 12, 14, 12, 14])))
+            r = rng.random()
+            frac = ''
+            if r < 0.6:
+                frac = rng.choice(['.', ',']) if rng.random() < 0.15 else '.'
+                frac += ''.join(rng.choice('0001234569') for _ in range(rng.choice([0, 1, 2, 3, 3, 4, 6, 7])))
+            zone = rng.choice(['Z', 'Z', 'Z', 'Z', '', '+0100', '-0530', 'Z', 'ZZ', '+01'])
+            text = body + frac + zone
+            if rng.random() < 0.05:
+                text = rng.choice(['', 'Z', '.Z', '..Z', '0.0Z', '.', '20170801120112.Z', '2017.0801.00Z'])
+            enc = ecls()
+            got = {}
+
+            def real():
+                # run the source function up to the point where the octets are handed to the string encoder
+                import pyasn1.codec.ber.encoder as benc_
+                orig = benc_.OctetStringEncoder.encodeValue
+
+                def stop(self_, value, asn1Spec, encodeFun, **options):
+                    raise Capture(tuple(value.asNumbers()))
+                benc_.OctetStringEncoder.encodeValue = stop
+                try:
+                    enc.encodeValue(cls(text), None, None)
+                except Capture as c:
+                    return list(c.args[0])
+                finally:
+                    benc_.OctetStringEncoder.encodeValue = orig
+            try:
+                impl = _py(real)
+            except Exception as e:  # noqa
+                impl = ('err', type(e).__name__)
+            cmp_('timeCanon', 'KTIME %d %d %s' % (ecls.MIN_LENGTH, ecls.MAX_LENGTH, ' '.join(str(ord(ch)) for ch in text)), impl)
     rep.count('kernel_correspondence', done)
     return done
 
